@@ -92,6 +92,8 @@ type session struct {
 	ResumeErr    error
 	Panic        string
 	Stage        string
+	Touched      int64 // GetTouchedFiles after Resume returned
+	NumFiles     int
 }
 
 func (se *session) run() {
@@ -139,6 +141,8 @@ func (se *session) run() {
 		}
 		se.Stage = "resume"
 		se.ResumeErr = p.Resume(c, targetPool, b)
+		se.Touched = p.GetTouchedFiles()
+		se.NumFiles = len(p.GetSourceContainer().Files)
 	})
 }
 
@@ -450,6 +454,21 @@ func TestC03(t *testing.T) {
 				}
 				if se.ResumeErr != nil {
 					Violation(rt, "C03/resume-error", "%s: resumed run failed at %s: %+v (%s)\nops %v", chainDesc, se.Stage, trimErr(se.ResumeErr), cfg, pair.Ops)
+					return
+				}
+				wantTouched := int64(se.NumFiles)
+				if whitelist != nil {
+					wantTouched = 0
+					for i := range whitelist {
+						if i < int64(se.NumFiles) {
+							wantTouched++
+						}
+					}
+				}
+				// (C17's statement, evaluated here because this is where a whitelisted application is
+				// finished by another patcher; without a whitelist no property speaks about the count)
+				if whitelist != nil && se.Touched != wantTouched {
+					Violation(rt, "C03/resume-touched-count", "%s: the resumed patcher reports %d touched files, the application as a whole handled %d (%s)", chainDesc, se.Touched, wantTouched, cfg)
 					return
 				}
 				if err, p := se.commit(); err != nil || p != "" {
